@@ -1480,7 +1480,15 @@ theorem typedColumn_spec (sk : String) (data : Bytes) (fs : List (Nat × Nat))
                         simp only [Bool.and_eq_true] at this
                         simp [this.2]
                       simp [this]
-                    simp [typedColumn, normKind, hbad]
+                    have hlen1 : (fs.map (fun p => slice data p.1 p.2)).any (fun t => t.length != 1) = false := by
+                      rw [Bool.eq_false_iff]
+                      intro hany
+                      obtain ⟨t, ht, hne⟩ := List.any_eq_true.mp hany
+                      have := (List.all_eq_true.mp hall) t ht
+                      simp only [Bool.and_eq_true] at this
+                      have h1' : t.length = 1 := by simpa using this.1
+                      simp [h1'] at hne
+                    simp [typedColumn, normKind, hbad, hlen1]
                   · simp at hs
                 · simp [h1, h2, h3, h4, h5, h6, h7, h8] at hs
 
@@ -3921,5 +3929,90 @@ example :
   parseFile_delimited_spec "bed3" Gen.C02.bed3 ⟨bed3Doc, 35, false⟩ true _ (-1) (some [1, 0])
     (by decide) (by decide) (by decide) (by decide) (by decide) (by decide) rfl rfl (by decide) (by decide)
     (by decide) (by decide) (by decide) _ (by decide) (by decide)
+
+
+/-! ### completeness of the strand column -/
+
+theorem strandTexts_ok_iff (texts : List Bytes) (c : Col) :
+    (if texts.any (fun t => t.length != 1) then (.error .other : Except Err Col) else
+        match firstBadRow texts strandOK with
+        | some i => .error (.format i)
+        | none => .ok (Col.strs texts)) = .ok c ↔ specColumn "strand" texts = some c := by
+  have hspec : specColumn "strand" texts =
+      (if texts.all (fun t => t.length == 1 && t.all strandOK) then some (Col.strs texts) else none) := by
+    simp [specColumn]
+  rw [hspec]
+  constructor
+  · intro h'
+    split at h'
+    · simp at h'
+    · rename_i hany
+      split at h'
+      · simp at h'
+      · rename_i hbad
+        simp only [Except.ok.injEq] at h'
+        subst h'
+        rw [if_pos]
+        rw [List.all_eq_true]
+        intro t ht
+        have h1 : t.length = 1 := by
+          apply Classical.byContradiction
+          intro hne
+          apply hany
+          rw [List.any_eq_true]
+          exact ⟨t, ht, by simpa using hne⟩
+        have h2 : t.all strandOK = true := by
+          unfold firstBadRow at hbad
+          simp only at hbad
+          split at hbad
+          · simp at hbad
+          · rename_i hge
+            have hlen : texts.findIdx (fun r => !r.all strandOK) = texts.length := by
+              have := List.findIdx_le_length (p := fun r : Bytes => !r.all strandOK) (xs := texts)
+              omega
+            have := (List.findIdx_eq_length.mp hlen) t ht
+            simpa using this
+        simp [h1, h2]
+  · intro h
+    split at h
+    · rename_i hall
+      simp only [Option.some.injEq] at h
+      subst h
+      have hlen1 : texts.any (fun t => t.length != 1) = false := by
+        rw [Bool.eq_false_iff]
+        intro hany
+        obtain ⟨t, ht, hne⟩ := List.any_eq_true.mp hany
+        have := (List.all_eq_true.mp hall) t ht
+        simp only [Bool.and_eq_true] at this
+        have h1' : t.length = 1 := by simpa using this.1
+        simp [h1'] at hne
+      have hbad : firstBadRow texts strandOK = none := by
+        unfold firstBadRow
+        have : texts.findIdx (fun r => !r.all strandOK) = texts.length := by
+          apply List.findIdx_eq_length_of_false
+          intro r hr
+          have := (List.all_eq_true.mp hall) r hr
+          simp only [Bool.and_eq_true] at this
+          simp [this.2]
+        simp [this]
+      simp [hlen1, hbad]
+    · simp at h
+
+/-- **strandColumn_ok_iff.** Completeness for the strand column: it is accepted exactly when every field is one of the
+single characters + - . (a two-character field such as `+-`, an empty field or any other character is refused), and
+then it is shown verbatim. -/
+theorem strandColumn_ok_iff (data : Bytes) (fs : List (Nat × Nat)) (c : Col) :
+    typedColumn "strand" data fs = .ok c ↔
+      specColumn "strand" (fs.map (fun p => slice data p.1 p.2)) = some c := by
+  have h := strandTexts_ok_iff (fs.map (fun p : Nat × Nat => slice data p.1 p.2)) c
+  have hdef : typedColumn "strand" data fs =
+      (if (fs.map (fun p : Nat × Nat => slice data p.1 p.2)).any (fun t => t.length != 1) then (.error .other : Except Err Col) else
+        match firstBadRow (fs.map (fun p : Nat × Nat => slice data p.1 p.2)) strandOK with
+        | some i => .error (.format i)
+        | none => .ok (Col.strs (fs.map (fun p : Nat × Nat => slice data p.1 p.2)))) := rfl
+  rw [hdef]
+  exact h
+
+example : specColumn "strand" [[43, 45]] = none ∧ specColumn "strand" [[43], [46]] = some (Col.strs [[43], [46]]) := by decide
 
 end C02
